@@ -396,6 +396,13 @@ func (fr *frame) conv(t_dst, t_src types.Type, x value) value {
 			case db.Info()&types.IsInteger != 0:
 				return fr.i.symConvInt(fr, xv, dk)
 			case db.Info()&types.IsFloat != 0:
+				if fr.i.floatSplit {
+					// exact: case-split the integer (few feasible values) and convert concretely
+					if fr.guard != nil {
+						panic(regionAbort{"int-to-float case split under a guard"})
+					}
+					return conv(t_dst, t_src, fr.conc(xv, "int-to-float operand"))
+				}
 				return fr.i.symToFloat(fr, xv, dk)
 			case db.Kind() == types.String:
 				return fr.runeToString(xv)
